@@ -33,9 +33,9 @@ VARIANTS["C03"] = [
 
 # ------------------------------------------------------------------------------------------ C04
 VARIANTS["C04"] = [
-    ("qual-reset", VCF, "                    # Unphased\n                    call[self.tag] = None", "                    # Unphased\n                    call[self.tag] = None\n                    record.qual = None", "C04.R2"),
+    ("qual-reset", VCF, '                    call[self.tag] = "." if self.tag == "HP" else None\n', '                    call[self.tag] = "." if self.tag == "HP" else None\n                    record.qual = None\n', "C04.R2"),
     ("info-store", VCF, "            prev_pos = pos\n        return genotype_changes", '            record.info["PHASED"] = True\n            prev_pos = pos\n        return genotype_changes', "C04.R2"),
-    ("delete-other-format", VCF, "                    # Unphased\n                    call[self.tag] = None", '                    # Unphased\n                    call[self.tag] = None\n                    del call["GQ"]', "C04.R2"),
+    ("delete-other-format", VCF, '                    call[self.tag] = "." if self.tag == "HP" else None\n', '                    call[self.tag] = "." if self.tag == "HP" else None\n                    del call["GQ"]\n', "C04.R2"),
     ("all-samples-touched", VCF, "            for sample in sample_superreads:\n                call: VariantRecordSample", "            for sample in self.samples:\n                call: VariantRecordSample", "C04.R3"),
     ("remove-phasing-all-samples", VCF, "            self._remove_existing_phasing(record, list(sample_superreads))", "            self._remove_existing_phasing(record, self.samples)", "C04.R3"),
     ("dup-break", VCF, "                # duplicate position, skip it\n                continue", "                # duplicate position, skip it\n                break", "C04.R1"),
@@ -178,6 +178,8 @@ VARIANTS["C11"] = [
     ("intersection-ignores-missing", CMP, "        if not any_none:\n            joint_block_id = tuple(", "        if True:\n            joint_block_id = tuple(", "C11.R4"),
     # benign
     ("b-orientation-flipped-test", CMP, "if hamming(phasing0[0], phasing1[0]) < hamming(phasing0[0], complement(phasing1[0])):", "if hamming(phasing0[0], complement(phasing1[0])) > hamming(phasing0[0], phasing1[0]):", "silent"),
+    ("b-orientation-as-threshold", CMP, "if hamming(phasing0[0], phasing1[0]) < hamming(phasing0[0], complement(phasing1[0])):", "if 2 * hamming(phasing0[0], phasing1[0]) < len(block):", "silent"),
+    ("orientation-threshold-off-by-one", CMP, "if hamming(phasing0[0], phasing1[0]) < hamming(phasing0[0], complement(phasing1[0])):", "if 2 * hamming(phasing0[0], phasing1[0]) < len(block) - 1:", "C11.R2"),
     ("b-rename-counter", CMP, "    switches_in_a_row = 0\n    for i, (p0, p1) in enumerate(zip(s0, s1)):\n        if p0 != p1:\n            switches_in_a_row += 1\n        if (i + 1 == len(s0)) or (p0 == p1):\n            result.flips += switches_in_a_row // 2\n            result.switches += switches_in_a_row % 2\n            switches_in_a_row = 0", "    run = 0\n    for i, (p0, p1) in enumerate(zip(s0, s1)):\n        if p0 != p1:\n            run += 1\n        if (p0 == p1) or (i == len(s0) - 1):\n            result.flips += run // 2\n            result.switches += run % 2\n            run = 0", "silent"),
 ]
 
